@@ -40,7 +40,7 @@ from jpsim.runner import simpler_json
 
 PROPERTY = "C18"
 BUDGET = {
-    "quick": {"clean": 12000, "faulty": 18000, "subprocess": 320},
+    "quick": {"clean": 16000, "faulty": 24000, "subprocess": 480},
     "thorough": {"clean": 250000, "faulty": 400000, "subprocess": 12000},
 }
 FAULT_KINDS = ["trunc", "flip", "empty", "garbage", "badutf8", "bom16", "bom8", "ws"]
